@@ -364,3 +364,15 @@ CANARIES = [
          new="            if not self._COMP_MAP[cond](version, ver):\n                return False\n            return True\n        return True",
          expect='predicate/'),
 ]
+
+
+# Code-independent schema lemma, checked by the Lean 4 kernel on every run:
+# for tuples of ANY common length with components 0..999 the order of the
+# Horner values is the component-wise order, and packing is injective.  The
+# per-length obligations above (z3) tie the real loop to the Horner value.
+LEMMAS = [
+    dict(name='schema/radix-1000-order-for-every-length',
+         props=['C17'], file='lean/RadixOrder.lean',
+         theorems=['horner_lt_iff', 'packed_order_is_component_order',
+                   'lexlt_irrefl', 'lexlt_total', 'packed_injective']),
+]
